@@ -1189,6 +1189,10 @@ namespace bloch::runtime {
     void RuntimeEvaluator::ensureGcThread() {
         if (m_gcThread.joinable())
             return;
+#ifdef BLOCH_VERIF
+        if (m_verifGcSchedule)
+            return;
+#endif
         m_stopGc = false;
         m_gcRequested = false;
         m_gcThreadStarted = true;
@@ -1225,6 +1229,9 @@ namespace bloch::runtime {
         if (!m_gcRequested.load())
             return;
         m_gcRequested = false;
+#ifdef BLOCH_VERIF
+        ++m_verifCollections;
+#endif
         std::vector<std::shared_ptr<Object>> objects;
         {
             std::lock_guard<std::mutex> lock(m_heapMutex);
@@ -1602,6 +1609,10 @@ namespace bloch::runtime {
     }
 
     void RuntimeEvaluator::exec(Statement* s) {
+#ifdef BLOCH_VERIF
+        if (m_verifGcSchedule && m_verifGcSchedule(m_verifStmtCount++))
+            requestGc();
+#endif
         if (m_gcRequested.load())
             runCycleCollector();
         if (!s)
